@@ -256,11 +256,81 @@ def step(cpu):
 
 
 def exc_site(e):
-    """(type name, innermost armulator function qualname-ish) for bucketing an escaping exception"""
+    """(type name, innermost armulator 'dir/module.function') for bucketing an escaping exception"""
     import traceback
     tb = traceback.extract_tb(e.__traceback__)
     site = '?'
     for fr in tb:
         if '/armulator/' in fr.filename:
-            site = os.path.basename(fr.filename)[:-3] + '.' + fr.name
+            parts = fr.filename.split('/')
+            site = parts[-2] + '/' + parts[-1][:-3] + '.' + fr.name
     return type(e).__name__, site
+
+
+MOCK_SITES = {'armv6/arm_v6.' + n for n in (
+    'tlb_lookup_came_from_cache_maintenance', 'remap_regs_have_reset_values', 'bkpt_instr_debug_event', 'hint_yield', 'send_event',
+    'cpx_instr_decode', 'cp15_instr_decode', 'cp14_debug_instr_decode', 'cp14_trace_instr_decode', 'cp14_jazelle_instr_decode',
+    'instr_is_pl0_undefined', 'coproc_get_word_to_store', 'coproc_done_storing', 'coproc_done_loading', 'coproc_send_loaded_word',
+    'coproc_send_two_words', 'coproc_get_two_words', 'coproc_internal_operation', 'coproc_send_one_word', 'coproc_get_one_word',
+    'hint_preload_data_for_write', 'hint_preload_data', 'data_synchronization_barrier', 'instruction_synchronization_barrier',
+    'switch_to_jazelle_execution')} | {'armv6/memory_controller_hub.set_bits', 'abstract_opcodes/bxj.execute'}
+
+
+def escape_ok(e):
+    """is this escaping exception one of the documented 'not implemented' outcomes (DESIGN.md appendix A.7)?"""
+    if not isinstance(e, NotImplementedError):
+        return False
+    _, site = exc_site(e)
+    return site in MOCK_SITES or (site.startswith('decoders/') and site.endswith('.decode_instruction'))
+
+
+# ---------------------------------------------------------------------------------------------- access budget
+class HangDetected(BaseException):
+    """raised when one step performs more hub accesses than any terminating instruction can (deterministic budget)"""
+
+
+from armulator.armv6.memory_controller_hub import MemoryControllerHub  # noqa: E402
+
+
+class BudgetHub(MemoryControllerHub):
+    BUDGET = 4096
+
+    def __init__(self, memories):
+        super().__init__()
+        self.memories = memories
+        self.count = 0
+
+    def __getitem__(self, k):
+        self.count += 1
+        if self.count > self.BUDGET:
+            raise HangDetected('hub access budget exceeded')
+        return super().__getitem__(k)
+
+    def __setitem__(self, k, v):
+        self.count += 1
+        if self.count > self.BUDGET:
+            raise HangDetected('hub access budget exceeded')
+        return super().__setitem__(k, v)
+
+
+class HookedHub(BudgetHub):
+    def set_bits(self, memaddrdesc, size, ind, amount, bits):
+        cur = MemoryControllerHub.__getitem__(self, (memaddrdesc, size))
+        mask = ((1 << amount) - 1) << ind
+        MemoryControllerHub.__setitem__(self, (memaddrdesc, size), (cur & ~mask) | ((bits << ind) & mask))
+
+
+def budget_cpu(cpu, hooked=False):
+    cpu.mem = (HookedHub if hooked else BudgetHub)(cpu.mem.memories)
+    return cpu
+
+
+def step_budget(cpu):
+    cpu.mem.count = 0
+    try:
+        cpu.emulate_cycle()
+        return None
+    except HangDetected as e:
+        return e
+    except Exception as e:
+        return e
